@@ -200,7 +200,12 @@ func oneCase(run *rep.Run, rng *rand.Rand, f *fw.FW, _ interface{}, a []string, 
 		hdr["X-Verif-Upload"] = "chunked" // sent without a declared length
 	}
 	httpc := world.NewClient(false, 10*time.Second)
-	c := f.Run(httpc, nonce, mkFaults(a), "/olla/proxy/v1/chat/completions", body, hdr)
+	route := "/olla/proxy/v1/chat/completions"
+	if rng.Intn(3) == 0 { // the provider routes run the same failover through their own handler
+		route = "/olla/ollama/v1/chat/completions"
+		run.Count("cases_on_provider_route", 1)
+	}
+	c := f.Run(httpc, nonce, mkFaults(a), route, body, hdr)
 	delete(hdr, "X-Verif-Upload") // a harness directive, not a header that was sent
 	key := caseKey(eng, bal, a, bodyClass)
 	if openIdx >= 0 {
@@ -355,7 +360,7 @@ func oneCase(run *rep.Run, rng *rand.Rand, f *fw.FW, _ interface{}, a []string, 
 	for i := range ok2 {
 		ok2[i] = fw.Fault{Kind: "ok"}
 	}
-	c2 := f.Run(httpc, nonce+"f", ok2, "/olla/proxy/v1/chat/completions", []byte(`{"model":"mall"}`), nil)
+	c2 := f.Run(httpc, nonce+"f", ok2, route, []byte(`{"model":"mall"}`), nil)
 	run.Count("followup_requests_judged", 1)
 	for _, at := range c2.Attempts {
 		if mustOffline[at.Backend] {
